@@ -24,16 +24,19 @@ pub struct Conn {
     pub first_rx_ns: Option<u64>,
     pub last_rx_ns: Option<u64>,
     pub eof_ns: Option<u64>,
+    /// local address, remembered past close
+    pub local: Option<SocketAddr>,
 }
 
 impl Conn {
     pub fn new(stream: TcpStream) -> Conn {
         stream.set_nonblocking(true).ok();
         stream.set_nodelay(true).ok();
-        Conn { stream: Some(stream), rx: vec![], eof: false, reset: false, tx: vec![], sent: 0, first_rx_ns: None, last_rx_ns: None, eof_ns: None }
+        let local = stream.local_addr().ok();
+        Conn { stream: Some(stream), rx: vec![], eof: false, reset: false, tx: vec![], sent: 0, first_rx_ns: None, last_rx_ns: None, eof_ns: None, local }
     }
     pub fn closed() -> Conn {
-        Conn { stream: None, rx: vec![], eof: true, reset: false, tx: vec![], sent: 0, first_rx_ns: None, last_rx_ns: None, eof_ns: None }
+        Conn { stream: None, rx: vec![], eof: true, reset: false, tx: vec![], sent: 0, first_rx_ns: None, last_rx_ns: None, eof_ns: None, local: None }
     }
     /// read whatever is available; true if anything new was observed
     pub fn pump_read(&mut self, now: u64) -> bool {
@@ -108,7 +111,7 @@ impl Conn {
         }
     }
     pub fn local_addr(&self) -> Option<SocketAddr> {
-        self.stream.as_ref().and_then(|s| s.local_addr().ok())
+        self.local
     }
 }
 
